@@ -40,7 +40,7 @@ func init() {
 				}
 				return 100_000
 			}, Run: func(c *run.Ctx, idx uint64) { c07Run(c, idx, true) },
-				Min: map[string]int64{"histories": 50000, "steps": 1000000, "selector_comparisons": 1000000, "incrementing_writes": 100000, "paths_drawn": 50000, "gradient_paints": 2000, "through_logger": 2000, "raster_calls_compared": 500000}},
+				Min: map[string]int64{"histories": 50000, "steps": 1000000, "selector_comparisons": 1000000, "incrementing_writes": 100000, "zero_value_encoder": 1000, "paths_drawn": 50000, "gradient_paints": 2000, "through_logger": 2000, "raster_calls_compared": 500000}},
 			{Name: "helpers", N: func(t string) uint64 {
 				if t == "thorough" {
 					return 5_000_000
@@ -98,11 +98,14 @@ func exactUnit(r *run.Rng) float32 {
 // c07History generates a history.
 func c07History(c *run.Ctx, r *run.Rng, exact bool) (vb ivg.ViewBox, pal [64]color.RGBA, acts []act7, interesting bool) {
 	vb = ivg.DefaultViewBox
-	if r.Bool() {
+	if r.Chance(2, 3) {
 		x, y := gen.Grid64(r), gen.Grid64(r)
 		vb = ivg.ViewBox{MinX: x, MinY: y, MaxX: x + float32(r.Range(1, 6400))/64, MaxY: y + float32(r.Range(1, 6400))/64}
 	}
 	pal = gen.Palette(r)
+	if vb == ivg.DefaultViewBox && r.Bool() {
+		pal = ivg.DefaultPalette
+	}
 	coord := gen.Grid64
 	if !exact {
 		coord = func(r *run.Rng) float32 { return gen.Moderate(r, 100) }
@@ -136,7 +139,7 @@ func c07History(c *run.Ctx, r *run.Rng, exact bool) (vb ivg.ViewBox, pal [64]col
 			if op.K == rec.KSetCReg {
 				op.Col = anyColor(r)
 			}
-			if op.K == rec.KSetLOD {
+			if op.K == rec.KSetLOD && !(op.F[0] == 0 && (op.F[1] == 0 || math.IsInf(float64(op.F[1]), 1))) {
 				op.F[0], op.F[1] = float32(r.Pick(0, 0, 0, 10, 200)), float32(r.PickF(math.Inf(1), math.Inf(1), 100, 1000))
 			}
 			if (op.K == rec.KSetCReg || op.K == rec.KSetNReg) && op.Incr {
@@ -332,7 +335,12 @@ func c07Run(c *run.Ctx, idx uint64, exact bool) {
 				e.StartPath(0, 1, 1) // left inside a path
 			}
 		}
-		dB.Reset(vb, pal)
+		if idx%4 == 0 && vb == ivg.DefaultViewBox && pal == ivg.DefaultPalette {
+			// the documented zero-value entry point: no Reset, default metadata implied
+			c.Count("zero_value_encoder", 1)
+		} else {
+			dB.Reset(vb, pal)
+		}
 		if dB.CSel()&63 != 0 || dB.NSel()&63 != 0 {
 			violated = true
 			c.Violate("selectors-not-zero-after-reset", desc(map[string]interface{}{"encoder": []uint8{dB.CSel(), dB.NSel()}}))
